@@ -110,16 +110,32 @@ pub fn join(dir: &str, rel: &str) -> String {
 
 fn gen_cfg(rng: &mut Rng) -> (Value, &'static str) {
     match rng.below(12) {
-        0..=5 => (
-            exec::tracer_like_cfg(
+        0..=5 => {
+            let mut c = exec::tracer_like_cfg(
                 if rng.chance(1, 2) { Some("test") } else { None },
                 rng.chance(3, 4),
                 rng.chance(1, 2),
                 *rng.pick(&["OFF", "INFORMATION", "DEBUG", "MANDATORY", "bogus", ""]),
                 rng.chance(1, 2),
-            ),
-            "tracer-like",
-        ),
+            );
+            match rng.below(6) {
+                // methods that may be called without a callee (`fn0(x)`), as the tracer configures for `eval`-likes
+                0 | 1 => {
+                    if let Some(ms) = c["csiMethods"].as_array_mut() {
+                        ms.push(json!({"src": "fn0", "allowedWithoutCallee": true}));
+                        ms.push(json!({"src": "trim", "allowedWithoutCallee": true}));
+                    }
+                }
+                // string methods only: no operator is rewritten
+                2 => {
+                    if let Some(ms) = c["csiMethods"].as_array_mut() {
+                        ms.retain(|m| m.get("operator").is_none());
+                    }
+                }
+                _ => {}
+            }
+            (c, "tracer-like")
+        }
         6 => (json!({}), "empty-object"),
         7 => (json!("not an object"), "not-an-object"),
         8 => {
